@@ -36,4 +36,28 @@ mod('glueLimit',['v2/limit'],'limit: `main` = `loop` then close (deferred); `loo
 mod('glueJoin',['v2/join','v2/join/unite','join'],'join / unite: `main` picks `loopUntimeouted` iff the interrupt interval is zero; both loops end with the deferred `pass`; the timed loop passes on a tick only when `isTimeouted`')
 mod('gluePrioV2',['v2/priority','v2/priority/simple'],'v2 priority: `loop` = deferred `waitZeroActual`; repeat `base`, error exit, exit test `processed == 0 && isDrainedInputs`, `getLimitedFeedback`; simplified handler: `Handle` then `Release`')
 mod('gluePrioV1',['priority'],'v1 priority and Simple: the loop-top select, `base`, graceful exit test, `getLimitedFeedback`; Stop / GracefulStop = breaker; AddInput / RemoveInput = one send on the command channel; Simple main / handler / gracefulStop')
-print(len(rows))
+# constructor skeletons
+cb=g[g.index("def ctors"):]
+cb=cb[:cb.index("\n]")]
+crows=re.findall(r'^\s*\((".*?"), (".*?"), (\[.*\])\),?$', cb, re.M)
+chdr="""/-
+  Constructor skeletons: the top-level statements of every `New*` (kind and target), regenerated
+  from /repo on every run.  What the machines assume about creation — the Inputs map is read
+  (v1 `updateInputs`, v2 `prepare`) before the constructor returns, `passAt` is initialised at
+  creation (`resetPassAt`), the rate is used as given, the goroutine is started last — is pinned
+  here.
+-/
+"""
+def cmod(name, pkgs, doc):
+    rs=[r for r in crows if r[0].strip('"') in pkgs]
+    body="import Cqos.Facts.Defs\n"+chdr+"namespace Cqos.Facts\n\n"
+    body+="def %sExpected : List (String × String × List (String × String)) := [\n"%name
+    body+=",\n".join("  (%s, %s, %s)"%r for r in rs)+"\n]\n\n"
+    body+="/-- %s -/\n"%doc
+    pk=" || ".join('r.1 == "%s"'%p for p in pkgs)
+    body+="theorem %s : ctors.filter (fun r => %s) = %sExpected := by decide\n\nend Cqos.Facts\n"%(name,pk,name)
+    open('/verif/lean/Cqos/Facts/%s.lean'%(name[0].upper()+name[1:]),'w').write(body)
+cmod('ctorsPrio',['v2/priority','v2/priority/simple','priority'],'priority disciplines: validation, capacities, `prepare` / `updateInputs` (the caller\'s Inputs map is read here, before the constructor returns), struct, goroutine last')
+cmod('ctorsJoin',['v2/join','v2/join/unite','join'],'join / unite: validation, interrupt interval, struct, `resetPassAt()` (the timeout runs from creation), goroutine last')
+cmod('ctorsLimit',['v2/limit'],'limit: validation, struct (the rate is used as given), goroutine last')
+print(len(rows), len(crows))
